@@ -20,6 +20,18 @@ pub fn check(run: &Run, s: &str, l: &mut Local) -> Check {
             }
         }
     }
+    // enforce(s) is a function of s alone: the same call once more after a comparison that involved the same string on
+    // this thread (a memo shared between the comparison form and the enforcement form, r6-C06-2)
+    if s.len() <= 70_000 {
+        l.evals_n(2);
+        let _ = imp_compare(p, s, s);
+        let enf2 = imp_enforce(p, s);
+        if enf2 != enf.got {
+            let mut c = case_json(p, Op::Enforce, s);
+            c["history"] = json!(["compare(s, s) on the same thread", "enforce(s)"]);
+            return Err(Violation::new(c, format!("the same result as before the comparison: {}", fmt_res(&enf.got)), fmt_res(&enf2)));
+        }
+    }
     if let Ok(e) = &enf.got {
         if !enf.excused {
             // every accepted result is a fixed point of the nickname rules: through the model ...
